@@ -1,4 +1,4 @@
-import DFV.Lemmas.C03k
+import DFV.Lemmas.C03v
 /-!
 # C03 — field algebra is cell-wise numpy algebra on one mesh; operands stay untouched
 
@@ -367,11 +367,6 @@ example : evalOk exEnv (.bin .mul (.opd exNpVec) (.leaf 0)) = true := by decide 
 
 /-! ## labels, mapping and unit through the unary operations -/
 
-/-- labels and mapping survive one constructor round trip -/
-def MetaStable (f : CF) : Prop :=
-  vdimsSet f.nvdim f.vdims = .ok f.vdims ∧
-  vmapSet f.nvdim f.mesh.region.ndim f.vdims f.mesh.region.dims (some f.vmap) = .ok f.vmap
-
 /-- `-f`, `abs(f)`, `f.real`, `f.imag`, `f.conjugate`, `f.abs`, `f.phase` keep component
 count, labels and mapping; `abs`, `real`, `imag`, `conjugate` also keep the unit
 (`abs_keeps_labels`, repaired defect D9) -/
@@ -391,5 +386,618 @@ example : MetaStable exA := by
   constructor <;> decide +kernel
 
 example : evalOk exEnv (.un .abs (.leaf 0)) = true := by decide +kernel
+
+/-! ## well-formed inputs are accepted: totality on typed trees
+
+`HasTy env M e t` (`Lemmas/C03o.lean`) is a static typing judgment: it predicts component
+count, labels, mapping and unit of the value of `e` from the leaves alone.  `Good M f` =
+array / mask of the mesh's shape + labels and mapping in constructor state + `f.mesh = M`;
+`MeshOk M` = the region names all axes and `M.allclose(M)` holds. -/
+
+/-- fields of the examples that live on one mesh -/
+def exEnv1 : Env := { fields := [exA, exB, exS], sq := id, acos := id, arg := fun _ => 0 }
+
+example : MeshOk exMesh := ⟨rfl, by decide +kernel⟩
+
+example : ∀ f ∈ exEnv1.fields, Good exMesh f := by
+  intro f hf
+  simp only [exEnv1, List.mem_cons, List.not_mem_nil, or_false] at hf
+  rcases hf with rfl | rfl | rfl
+  · exact ⟨⟨rfl, rfl, by decide⟩, ⟨by decide +kernel, by decide +kernel⟩, rfl⟩
+  · exact ⟨⟨rfl, rfl, by decide⟩, ⟨by decide +kernel, by decide +kernel⟩, rfl⟩
+  · exact ⟨⟨rfl, rfl, by decide⟩, ⟨by decide +kernel, by decide +kernel⟩, rfl⟩
+
+/-- the tree `exVec - (-a * (b · conj a))` is well-typed -/
+example : ∃ t, HasTy exEnv1 exMesh exTree t :=
+  ⟨_, .arithRF .sub exVec _ _ rfl
+        (.arithFF .mul _ _ _ _ 2 rfl (.un .neg _ _ (.leaf 0 exA rfl))
+          (.dotFF _ _ _ _ (.leaf 1 exB rfl) (.un .uconjugate _ _ (.leaf 0 exA rfl)) rfl) (by decide))
+        (Or.inl rfl)⟩
+
+/-- `Mesh.allclose` is reflexive for non-negative tolerances, so every mesh whose region
+names all its axes is `MeshOk` -/
+theorem mesh_ok_of_tolerances (M : Mesh) (hd : M.region.dims.length = M.region.ndim)
+    (h1 : 0 ≤ M.region.tol) (h2 : 0 ≤ M.region.atol) : MeshOk M :=
+  ⟨hd, meshAllclose_self M h1 h2⟩
+
+example : (0 : Rat) ≤ exMesh.region.tol ∧ 0 ≤ exMesh.region.atol := by decide +kernel
+
+/-- **Totality and full correctness on typed trees** (discharges the success hypothesis of
+`eval_cellwise` / `eval_valid` / `eval_mesh`): every well-typed expression tree over
+well-formed fields on one mesh `M` — leaves, all 14 unary operations, `+ - * /` between
+fields with equal counts or a scalar field, with numbers, constant vectors of matching
+length and per-cell arrays on either side (plain Python or NumPy), `**` with a number
+exponent, `dot`, `cross`, `<<` and `angle` between fields, binary ufunc calls — **is accepted**; the result is a
+well-formed field **on `M`** with labels / mapping in constructor state, it carries exactly
+the statically predicted component count, labels, mapping and unit, every cell holds the
+same expression evaluated on that cell's component lists, and its validity is the AND of
+the operands' masks. -/
+theorem typed_total (env : Env) (M : Mesh) (hM : MeshOk M) (hgood : ∀ f ∈ env.fields, Good M f)
+    (e : Expr) (t : Ty) (h : HasTy env M e t) :
+    ∃ g, evalF env e = .ok (.fld g) ∧ g.mesh = M ∧ CFwf g ∧ MetaStable g ∧
+      g.nvdim = t.nv ∧ g.vdims = t.vdims ∧ g.vmap = t.vmap ∧ g.unit = t.unit ∧
+      ∀ i, inRange M.n i = true →
+        cellOf g.data i g.nvdim = evalCell env e i ∧ g.valid.get i = validCell env e i := by
+  obtain ⟨g, hg, ⟨hwf, hst, hm⟩, h1, h2, h3, h4⟩ := hasTy_sound env M hM hgood e t h
+  have hwf' : ∀ f ∈ env.fields, CFwf f ∧ f.mesh.n = M.n :=
+    fun f hf => ⟨(hgood f hf).1, by rw [(hgood f hf).2.2]⟩
+  have hok := hasTy_liftOk env M M.n e t h
+  obtain ⟨_, _, hc⟩ := eval_cellwise env M.n hwf' e hok g hg
+  have hv := eval_valid env M.n hwf' e hok g hg
+  exact ⟨g, hg, hm, hwf, hst, h1, h2, h3, h4, fun i hi => ⟨hc i hi, hv i hi⟩⟩
+
+/-- **every field a constructor call returns has labels and mapping in constructor state**
+(`MetaStable`): handing them to the constructor again changes nothing.  (Mesh whose region
+names all its axes; labels argument not the explicitly empty list.) -/
+theorem ctor_meta_stable (mesh : Mesh) (nv : Nat) (val : Value) (kind : Kind) (vd : Option (List String))
+    (valid : Option (NDA Bool)) (vm : Option VMap) (unit : Option String) (g : CF)
+    (hdims : mesh.region.dims.length = mesh.region.ndim) (hne : vd ≠ some [])
+    (h : mkField mesh nv val kind vd valid vm unit = .ok g) : MetaStable g :=
+  mkField_stable mesh nv val kind vd valid vm unit g hdims hne h
+
+/-- **invariant over arbitrary programs** (induction over all expression trees, no typing
+restriction, any mix of meshes): if every leaf has labels / mapping in constructor state on
+a mesh that names its axes, so has the value of every accepted expression — operators,
+reflected operators, `dot`, `cross`, `<<`, `angle`, complex parts and ufuncs preserve it. -/
+theorem eval_meta_invariant (env : Env)
+    (hleaf : ∀ f ∈ env.fields, MetaStable f ∧ f.mesh.region.dims.length = f.mesh.region.ndim)
+    (e : Expr) (g : CF) (h : evalF env e = .ok (.fld g)) :
+    MetaStable g ∧ g.mesh.region.dims.length = g.mesh.region.ndim :=
+  evalF_inv env hleaf e g h
+
+example : ∀ f ∈ exEnv.fields, MetaStable f ∧ f.mesh.region.dims.length = f.mesh.region.ndim := by
+  intro f hf
+  simp only [exEnv, List.mem_cons, List.not_mem_nil, or_false] at hf
+  rcases hf with rfl | rfl | rfl | rfl <;> exact ⟨⟨by decide +kernel, by decide +kernel⟩, rfl⟩
+
+/-! ## acceptance and metadata rule of every operator family -/
+
+/-- **`self ∘ other` for two fields** (`∘` any of `+ - * / **` with its NumPy function `fn`):
+accepted whenever the component counts are equal or one of them is 1 (and NumPy's
+integer-power rule does not object); the result has the broadcast count, **the labels and
+mapping of the vector operand** (of `self` when the counts agree — D8 repaired, D10/D51 as
+they stand), **no unit**, and the dtype kind NumPy's promotion gives (at least float). -/
+theorem binary_fields_meta (fn : GQ → GQ → GQ) (pw : Bool) (M : Mesh) (hM : MeshOk M) (f o : CF)
+    (hf : Good M f) (ho : Good M o) (d : Nat) (hd : bdim f.nvdim o.nvdim = some d)
+    (hpw : negIntPow pw f.kind o.kind o.data = false) :
+    ∃ g, applyOperator fn pw f (.fld o) = .ok g ∧ Good M g ∧ g.nvdim = d ∧
+      g.vdims = (if f.nvdim = 1 ∧ 1 < o.nvdim then o.vdims else f.vdims) ∧
+      g.vmap = (if f.nvdim = 1 ∧ 1 < o.nvdim then o.vmap else f.vmap) ∧ g.unit = none ∧
+      g.kind = (f.kind.join o.kind).ctor := by
+  obtain ⟨g, h, hg, h1, h2, h3, h4, h5⟩ := applyOperator_fld_accepts fn pw M hM f o hf ho d hd hpw
+  refine ⟨g, h, hg, h1, ?_, ?_, h4, h5⟩
+  · rw [h2]; unfold metaSrc; split <;> rfl
+  · rw [h3]; unfold metaSrc; split <;> rfl
+
+example : bdim exS.nvdim exA.nvdim = some 2 ∧ negIntPow false exS.kind exA.kind exA.data = false := by
+  decide +kernel
+
+/-- **`self ∘ number / constant vector / per-cell array`**: accepted for a number, a vector of
+length `nvdim` and an array of the field's own shape; component count, labels and mapping
+of `self` are kept, the unit is dropped. -/
+theorem binary_raw_meta (fn : GQ → GQ → GQ) (pw : Bool) (M : Mesh) (f : CF) (hf : Good M f)
+    (od : Opd) (hfit : RawFits f.mesh.n f.nvdim od) (hpw : negIntPow pw f.kind (rawKind od) (rawArr od) = false) :
+    ∃ g, applyOperator fn pw f (.raw od) = .ok g ∧ Good M g ∧ g.nvdim = f.nvdim ∧
+      g.vdims = f.vdims ∧ g.vmap = f.vmap ∧ g.unit = none ∧ g.kind = (f.kind.join (rawKind od)).ctor :=
+  applyOperator_raw_accepts fn pw M f hf od hfit hpw
+
+example : RawFits exA.mesh.n exA.nvdim exVec := Or.inl rfl
+
+/-- **all 14 unary operations are accepted**; component count, labels and mapping are kept;
+the unit is kept by `+f`, `abs(f)`, `real`, `imag`, `conjugate` and dropped by `-f`,
+`f.abs`, `f.phase` and the unary ufuncs. -/
+theorem unary_accepts_meta (env : Env) (u : UnOp) (M : Mesh) (hM : MeshOk M) (f : CF) (hf : Good M f) :
+    ∃ g, applyUn env u f = .ok g ∧ Good M g ∧ g.nvdim = f.nvdim ∧ g.vdims = f.vdims ∧ g.vmap = f.vmap ∧
+      g.unit = (if unKeepsUnit u then f.unit else none) :=
+  applyUn_accepts env u M hM f hf
+
+/-- **`dot`**: two fields with equal counts, or a field with a constant vector / per-cell
+array, are accepted; the result is an unlabelled scalar field without mapping and unit. -/
+theorem dot_meta (M : Mesh) (hM : MeshOk M) (f : CF) (hf : Good M f) (v : Val)
+    (hv : (∃ o, v = .fld o ∧ Good M o ∧ f.nvdim = o.nvdim) ∨
+          (∃ a k np, v = .raw (.arr a k np) ∧ RawFits f.mesh.n f.nvdim (.arr a k np))) :
+    ∃ g, dotOp f v = .ok g ∧ Good M g ∧ g.nvdim = 1 ∧ g.vdims = none ∧ g.vmap = [] ∧ g.unit = none := by
+  rcases hv with ⟨o, rfl, ho, hn⟩ | ⟨a, k, np, rfl, hfit⟩
+  · obtain ⟨g, h, hg, h1, h2, h3, h4, _⟩ := dotOp_fld_accepts M hM f o hf ho hn
+    exact ⟨g, h, hg, h1, h2, h3, h4⟩
+  · obtain ⟨g, h, hg, h1, h2, h3, h4, _⟩ := dotOp_raw_accepts M f hf a k np hfit
+    exact ⟨g, h, hg, h1, h2, h3, h4⟩
+
+/-- **`cross`**: two three-component fields, or such a field with a 3-vector / per-cell
+array of 3-vectors, are accepted; the result keeps the labels of `self`, gets the default
+mapping for these labels and no unit. -/
+theorem cross_meta (M : Mesh) (hM : MeshOk M) (f : CF) (hf : Good M f) (h3 : f.nvdim = 3) (v : Val)
+    (hv : (∃ o, v = .fld o ∧ Good M o ∧ o.nvdim = 3) ∨
+          (∃ a k np, v = .raw (.arr a k np) ∧ RawFits f.mesh.n f.nvdim (.arr a k np))) :
+    ∃ g, crossOp f v = .ok g ∧ Good M g ∧ g.nvdim = 3 ∧ g.vdims = f.vdims ∧
+      vmapSet 3 M.region.ndim f.vdims M.region.dims none = .ok g.vmap ∧ g.unit = none := by
+  rcases hv with ⟨o, rfl, ho, hn⟩ | ⟨a, k, np, rfl, hfit⟩
+  · obtain ⟨g, h, hg, h1, h2, h3', h4, _⟩ := crossOp_fld_accepts M hM f o hf ho h3 hn
+    exact ⟨g, h, hg, h1, h2, h3', h4⟩
+  · obtain ⟨g, h, hg, h1, h2, h3', h4, _⟩ := crossOp_raw_accepts M hM f hf h3 a k np hfit
+    exact ⟨g, h, hg, h1, h2, h3', h4⟩
+
+/-- three-component field for the `cross` examples -/
+def exV3 : CF := { mesh := exMesh, nvdim := 3,
+                   data := NDA.ofList [2, 3] [⟨1, 0⟩, ⟨2, 0⟩, ⟨3, 0⟩, ⟨4, 0⟩, ⟨5, 0⟩, ⟨6, 1⟩] GQ.zero,
+                   valid := exValid true true, vdims := some ["u", "v", "w"], vmap := [], unit := none,
+                   kind := .complex }
+
+example : Good exMesh exV3 ∧ exV3.nvdim = 3 :=
+  ⟨⟨⟨rfl, rfl, by decide⟩, ⟨by decide +kernel, by decide +kernel⟩, rfl⟩, rfl⟩
+
+/-- **binary ufunc calls** (`np.add(f, g)`, `np.maximum(f, 2)`, `np.float64(2) * f`,
+`ndarray + f`, …): accepted for two fields when the result has `self`'s component count,
+and for a number / NumPy vector of matching length / NumPy per-cell array in either
+position; labels and mapping of `self` (the first field input) are kept, no unit. -/
+theorem ufunc_meta (fn : GQ → GQ → GQ) (M : Mesh) (hM : MeshOk M) (f : CF) (hf : Good M f) :
+    (∀ o, Good M o → bdim f.nvdim o.nvdim = some f.nvdim →
+      ∃ g, ufunc2 fn false (.fld f) (.fld o) = .ok g ∧ Good M g ∧ g.nvdim = f.nvdim ∧ g.vdims = f.vdims ∧
+        g.vmap = f.vmap ∧ g.unit = none) ∧
+    (∀ od, RawFits f.mesh.n f.nvdim od → UfuncOpd od →
+      (∃ g, ufunc2 fn false (.fld f) (.raw od) = .ok g ∧ Good M g ∧ g.nvdim = f.nvdim ∧ g.vdims = f.vdims ∧
+        g.vmap = f.vmap ∧ g.unit = none) ∧
+      (∃ g, ufunc2 fn false (.raw od) (.fld f) = .ok g ∧ Good M g ∧ g.nvdim = f.nvdim ∧ g.vdims = f.vdims ∧
+        g.vmap = f.vmap ∧ g.unit = none)) := by
+  refine ⟨fun o ho hd => ?_, fun od hfit hu => ⟨?_, ?_⟩⟩
+  · obtain ⟨g, h, hg, h1, h2, h3, h4, _⟩ :=
+      ufunc2_ff_accepts fn false M hM f o hf ho hd (negIntPow_false _ _ _)
+    exact ⟨g, h, hg, h1, h2, h3, h4⟩
+  · obtain ⟨g, h, hg, h1, h2, h3, h4, _⟩ :=
+      ufunc2_fr_accepts fn false M hM f hf od hfit hu (negIntPow_false _ _ _)
+    exact ⟨g, h, hg, h1, h2, h3, h4⟩
+  · obtain ⟨g, h, hg, h1, h2, h3, h4, _⟩ :=
+      ufunc2_rf_accepts fn false M hM f hf od hfit hu (negIntPow_false _ _ _)
+    exact ⟨g, h, hg, h1, h2, h3, h4⟩
+
+example : RawFits exA.mesh.n exA.nvdim exNpVec ∧ UfuncOpd exNpVec := ⟨Or.inl rfl, rfl⟩
+
+/-- **`norm` and `angle`**: `f.norm` is accepted and keeps the unit; `f.angle(g)` is accepted
+for two fields with equal component counts; both are unlabelled scalar fields without
+mapping, the angle has unit `rad`. -/
+theorem norm_angle_meta (sq acos : Rat → Rat) (M : Mesh) (hM : MeshOk M) (f o : CF) (hf : Good M f) (ho : Good M o)
+    (hn : f.nvdim = o.nvdim) :
+    (∃ g, normOp sq f = .ok g ∧ Good M g ∧ g.nvdim = 1 ∧ g.vdims = none ∧ g.vmap = [] ∧ g.unit = f.unit) ∧
+    (∃ g, angleOp sq acos f (.fld o) = .ok g ∧ Good M g ∧ g.nvdim = 1 ∧ g.vdims = none ∧ g.vmap = [] ∧
+      g.unit = some "rad") :=
+  ⟨normOp_accepts sq M f hf, angleOp_fld_accepts sq acos M hM f o hf ho hn⟩
+
+/-- **`<<` between two fields on one mesh is always accepted** (any component counts `k`,
+`l`).  The result has `k + l` components and no unit; **its labels are the concatenation
+when both operands are labelled and no label repeats, the default labels otherwise; its
+mapping is the merged dict when that covers all `k + l` components, the default mapping
+otherwise** ("stacking keeps labels and mapping when unique"). -/
+theorem shl_meta (M : Mesh) (hM : MeshOk M) (f o : CF) (hf : Good M f) (ho : Good M o) :
+    ∃ g, shlFF f o = .ok g ∧ Good M g ∧ g.nvdim = f.nvdim + o.nvdim ∧ g.unit = none ∧
+      g.vdims = shlLabels f.vdims o.vdims (f.nvdim + o.nvdim) ∧
+      (if (dictUpdate f.vmap o.vmap).length = f.nvdim + o.nvdim then g.vmap = dictUpdate f.vmap o.vmap
+       else vmapSet (f.nvdim + o.nvdim) M.region.ndim g.vdims M.region.dims none = .ok g.vmap) :=
+  shlFF_accepts M hM f o hf ho
+
+/-- unique labels are kept by `<<`, and full mappings over disjoint labels are concatenated -/
+theorem shl_keeps_unique (a b : List String) (nv : Nat) (hd : hasDup (a ++ b) = false) (m u : VMap)
+    (hnd : (keys u).Nodup) (hdis : ∀ x ∈ keys u, x ∉ keys m) :
+    shlLabels (some a) (some b) nv = some (a ++ b) ∧ dictUpdate m u = m ++ u :=
+  ⟨shlLabels_unique a b nv hd, dictUpdate_disjoint u m hnd hdis⟩
+
+example : hasDup (["a", "b"] ++ ["p", "q"]) = false := by decide
+
+/-- **`f.label` is accepted for every label of `f`**: an unlabelled scalar field on the same
+mesh, without mapping, with `f`'s unit -/
+theorem component_accepts (M : Mesh) (f : CF) (hf : Good M f) (vd : List String) (hvd : f.vdims = some vd)
+    (l : String) (hl : l ∈ vd) :
+    ∃ c, getComp f l = .ok c ∧ Good M c ∧ c.nvdim = 1 ∧ c.vdims = none ∧ c.vmap = [] ∧ c.unit = f.unit :=
+  getComp_accepts M f hf vd hvd l hl
+
+/-- **stacking the components of a labelled field is accepted and reproduces it** (no
+success hypothesis): for every well-formed field `f` with labels on a mesh `M`,
+`f.l₀ << … << f.lₖ₋₁` evaluates to a field on `M` with `k` components, the same values in
+every cell and the same validity; its labels / mapping are the default ones. -/
+theorem stack_components_total (M : Mesh) (hM : MeshOk M) (f : CF) (hf : Good M f) (vd : List String)
+    (hvd : f.vdims = some vd) :
+    ∃ g, stackComps f = .ok g ∧ Good M g ∧ g.nvdim = f.nvdim ∧
+      (∀ i, inRange M.n i = true →
+        cellOf g.data i g.nvdim = cellOf f.data i f.nvdim ∧ g.valid.get i = f.valid.get i) ∧
+      g.vdims = Fld.defaultVdims f.nvdim ∧
+      vmapSet f.nvdim M.region.ndim (Fld.defaultVdims f.nvdim) M.region.dims none = .ok g.vmap := by
+  obtain ⟨g, hg, hgg⟩ := stackComps_accepts M hM f hf vd hvd
+  obtain ⟨_, hlen, hnd⟩ := hf.2.1.labels hf.1.2.2 vd hvd
+  obtain ⟨_, hn, hc, h4, h5⟩ := stack_components M.n f g hf.1 (by rw [hf.2.2]) vd hvd hlen hnd hg
+  rw [hf.2.2] at h5
+  exact ⟨g, hg, hgg, hn, hc, h4, h5⟩
+
+example : Good exMesh exA ∧ exA.vdims = some ["a", "b"] :=
+  ⟨⟨⟨rfl, rfl, by decide⟩, ⟨by decide +kernel, by decide +kernel⟩, rfl⟩, rfl⟩
+
+/-! ## `a ∘ b` and `b ∘ a`, continued -/
+
+/-- **labels, mapping, count and unit of `x ∘ y` and `y ∘ x` agree for whole subtrees**
+(`∘ ∈ {+, *}`; partial: the cases the code satisfies): for well-typed subexpressions `x`,
+`y` whose values are a scalar field and a vector field (either order), or carry the same
+labels and mapping, both orders are accepted and the two results have the same component
+count, labels, mapping and unit.  Missing for the full claim: operands with different
+labels and equal counts (D10, D51 — `comm_meta_fails`, `comm_meta_fails_scalar`). -/
+theorem comm_meta_trees_partial (env : Env) (M : Mesh) (hM : MeshOk M) (hgood : ∀ f ∈ env.fields, Good M f)
+    (b : BinOp) (hb : b = .add ∨ b = .mul) (x y : Expr) (tx ty : Ty)
+    (hx : HasTy env M x tx) (hy : HasTy env M y ty) (d : Nat) (hd : bdim tx.nv ty.nv = some d)
+    (hcase : (tx.nv = 1 ∧ 1 < ty.nv) ∨ (ty.nv = 1 ∧ 1 < tx.nv) ∨ (tx.vdims = ty.vdims ∧ tx.vmap = ty.vmap)) :
+    ∃ g1 g2, evalF env (.bin b x y) = .ok (.fld g1) ∧ evalF env (.bin b y x) = .ok (.fld g2) ∧
+      g1.nvdim = g2.nvdim ∧ g1.vdims = g2.vdims ∧ g1.vmap = g2.vmap ∧ g1.unit = g2.unit := by
+  obtain ⟨f, hf, hfg, f1, f2, f3, _⟩ := hasTy_sound env M hM hgood x tx hx
+  obtain ⟨o, ho, hog, o1, o2, o3, _⟩ := hasTy_sound env M hM hgood y ty hy
+  have hba : isArith b = true := by rcases hb with rfl | rfl <;> rfl
+  have hd1 : bdim f.nvdim o.nvdim = some d := by rw [f1, o1]; exact hd
+  have hd2 : bdim o.nvdim f.nvdim = some d := by rw [bdim_comm]; exact hd1
+  obtain ⟨g1, h1, _, n1, v1, m1, u1⟩ := applyBin_arith_ff env b hba M hM f o hfg hog d hd1
+  obtain ⟨g2, h2, _, n2, v2, m2, u2⟩ := applyBin_arith_ff env b hba M hM o f hog hfg d hd2
+  refine ⟨g1, g2, by rw [evalF_bin env b x y _ _ hf ho, h1], by rw [evalF_bin env b y x _ _ ho hf, h2],
+    by rw [n1, n2], ?_, ?_, by rw [u1, u2]⟩
+  · rw [v1, v2]
+    unfold metaSrc
+    rw [f1, o1]
+    rcases hcase with ⟨ha, hb'⟩ | ⟨ha, hb'⟩ | ⟨ha, _⟩
+    · rw [if_pos ⟨ha, hb'⟩, if_neg (by omega)]
+    · rw [if_neg (by omega), if_pos ⟨ha, hb'⟩]
+    · split <;> split <;> first | rfl | (rw [f2, o2, ha])
+  · rw [m1, m2]
+    unfold metaSrc
+    rw [f1, o1]
+    rcases hcase with ⟨ha, hb'⟩ | ⟨ha, hb'⟩ | ⟨_, ha⟩
+    · rw [if_pos ⟨ha, hb'⟩, if_neg (by omega)]
+    · rw [if_neg (by omega), if_pos ⟨ha, hb'⟩]
+    · split <;> split <;> first | rfl | (rw [f3, o3, ha])
+
+example : HasTy exEnv1 exMesh (.leaf 2) (tyOf exS) ∧ HasTy exEnv1 exMesh (.leaf 0) (tyOf exA) ∧
+    bdim (tyOf exS).nv (tyOf exA).nv = some 2 :=
+  ⟨.leaf 2 exS rfl, .leaf 0 exA rfl, by decide⟩
+
+/-- **`x ∘ c` and `c ∘ x` carry the same metadata** (`∘ ∈ {+, *}`) for a well-typed subtree `x`
+and a number, a constant vector of matching length or a per-cell array `c` — plain Python
+(reflected method) or NumPy (`__array_ufunc__`): both orders are accepted and give the same
+component count, labels, mapping and unit; with `comm_values` the same field. -/
+theorem comm_meta_raw (env : Env) (M : Mesh) (hM : MeshOk M) (hgood : ∀ f ∈ env.fields, Good M f)
+    (b : BinOp) (hb : b = .add ∨ b = .mul) (x : Expr) (t : Ty) (hx : HasTy env M x t) (od : Opd)
+    (hfit : RawFits M.n t.nv od) :
+    ∃ g1 g2, evalF env (.bin b x (.opd od)) = .ok (.fld g1) ∧ evalF env (.bin b (.opd od) x) = .ok (.fld g2) ∧
+      g1.nvdim = g2.nvdim ∧ g1.vdims = g2.vdims ∧ g1.vmap = g2.vmap ∧ g1.unit = g2.unit := by
+  have hba : isArith b = true := by rcases hb with rfl | rfl <;> rfl
+  obtain ⟨g1, h1, _, a1, a2, a3, a4⟩ := hasTy_sound env M hM hgood _ _ (HasTy.arithFR b x od t (Or.inl hba) hx hfit)
+  obtain ⟨g2, h2, _, b1, b2, b3, b4⟩ := hasTy_sound env M hM hgood _ _ (HasTy.arithRF b od x t hba hx hfit)
+  exact ⟨g1, g2, h1, h2, by rw [a1, b1], by rw [a2, b2], by rw [a3, b3], by rw [a4, b4]⟩
+
+example : RawFits exMesh.n (tyOf exA).nv exNpVec := Or.inl rfl
+
+/-- **`-(-x)` and `conj(conj(x))` reproduce `x`** in every cell and in validity (any subtree `x`) -/
+theorem involution_values (env : Env) (n : List Nat) (hwf : ∀ f ∈ env.fields, CFwf f ∧ f.mesh.n = n)
+    (u : UnOp) (hu : u = .neg ∨ u = .conj) (x : Expr) (hx : LiftOk n x) (f g : CF)
+    (h0 : evalF env x = .ok (.fld f)) (h1 : evalF env (.un u (.un u x)) = .ok (.fld g)) :
+    ∀ i, inRange n i = true →
+      cellOf g.data i g.nvdim = cellOf f.data i f.nvdim ∧ g.valid.get i = f.valid.get i := by
+  obtain ⟨_, _, hc0⟩ := eval_cellwise env n hwf x hx f h0
+  obtain ⟨_, _, hc1⟩ := eval_cellwise env n hwf _ (show LiftOk n (.un u (.un u x)) from hx) g h1
+  have hv0 := eval_valid env n hwf x hx f h0
+  have hv1 := eval_valid env n hwf _ (show LiftOk n (.un u (.un u x)) from hx) g h1
+  intro i hi
+  refine ⟨?_, by rw [hv1 i hi, hv0 i hi]; simp only [validCell]⟩
+  rw [hc1 i hi, hc0 i hi]
+  simp only [evalCell, List.map_map]
+  have hid : (unFn env u ∘ unFn env u) = id := by
+    funext z
+    rcases hu with rfl | rfl
+    · simp [unFn, GQ.neg]
+    · simp [unFn, GQ.conj]
+  rw [hid, List.map_id]
+
+example : evalOk exEnv (.un .neg (.un .neg (.leaf 0))) = true := by decide +kernel
+
+/-- two scalar fields with different explicit labels -/
+def exS1 : CF := { exS with vdims := some ["s1"] }
+def exS2 : CF := { exS with vdims := some ["t2"] }
+def exEnvS : Env := { fields := [exS1, exS2], sq := id, acos := id, arg := fun _ => 0 }
+
+/-- **the labels clause of `a∘b = b∘a` also fails for one-component fields** (open finding
+D51): two scalar fields with different explicit labels — `a * b` is labelled like `a`,
+`b * a` like `b`. -/
+theorem comm_meta_fails_scalar :
+    labelsOf exEnvS (.bin .mul (.leaf 0) (.leaf 1)) = some (some ["s1"]) ∧
+    labelsOf exEnvS (.bin .mul (.leaf 1) (.leaf 0)) = some (some ["t2"]) := by
+  decide +kernel
+
+/-- a labelled scalar field and a NumPy array of two values per cell -/
+def exNpRows : Opd := .arr (NDA.ofList [2, 2] [⟨1, 0⟩, ⟨1, 0⟩, ⟨1, 0⟩, ⟨1, 0⟩] GQ.zero) .float true
+
+/-- **acceptance is not symmetric for a Field and a NumPy array** (open finding D52): for the
+scalar field `s` labelled `s1` and `a = np.ones((2, 2))`, `s * a` is accepted
+(`_apply_operator` drops the label) while `a * s` is refused (`__array_ufunc__` keeps
+`self.vdims`, the constructor rejects one label for two components). -/
+theorem comm_accept_fails :
+    evalOk exEnvS (.bin .mul (.leaf 0) (.opd exNpRows)) = true ∧
+    evalOk exEnvS (.bin .mul (.opd exNpRows) (.leaf 0)) = false := by
+  decide +kernel
+
+/-- **`dot` commutes** in values and validity: whenever `x.dot(y)` and `y.dot(x)` (`@`, also
+with a list / tuple on either side) are both accepted, the two scalar fields agree in every
+cell. -/
+theorem dot_comm_values (env : Env) (n : List Nat) (hwf : ∀ f ∈ env.fields, CFwf f ∧ f.mesh.n = n)
+    (x y : Expr) (hx : LiftOk n x) (hy : LiftOk n y) (g1 g2 : CF)
+    (h1 : evalF env (.bin .dot x y) = .ok (.fld g1)) (h2 : evalF env (.bin .dot y x) = .ok (.fld g2)) :
+    ∀ i, inRange n i = true →
+      cellOf g1.data i g1.nvdim = cellOf g2.data i g2.nvdim ∧ g1.valid.get i = g2.valid.get i := by
+  have hok1 : LiftOk n (.bin .dot x y) := ⟨hx, hy, by simp⟩
+  have hok2 : LiftOk n (.bin .dot y x) := ⟨hy, hx, by simp⟩
+  obtain ⟨_, _, hc1⟩ := eval_cellwise env n hwf _ hok1 g1 h1
+  obtain ⟨_, _, hc2⟩ := eval_cellwise env n hwf _ hok2 g2 h2
+  have hv1 := eval_valid env n hwf _ hok1 g1 h1
+  have hv2 := eval_valid env n hwf _ hok2 g2 h2
+  simp only [evalF] at h1
+  cases hex : evalF env x with
+  | error e => simp [hex] at h1
+  | ok vx =>
+    simp only [hex] at h1
+    cases hey : evalF env y with
+    | error e => simp [hey] at h1
+    | ok vy =>
+      simp only [hey] at h1
+      obtain ⟨hcx, _⟩ := eval_good env n hwf x vx hx hex
+      obtain ⟨hcy, _⟩ := eval_good env n hwf y vy hy hey
+      have hcompat := applyBin_dot_compat env n vx vy g1 _ _ _ _ hcx hcy h1
+      intro i hi
+      refine ⟨?_, ?_⟩
+      · rw [hc1 i hi, hc2 i hi]
+        simp only [evalCell, binCell]
+        rw [dotCell_comm _ _ (hcompat i hi)]
+      · rw [hv1 i hi, hv2 i hi]
+        simp only [validCell]
+        exact Bool.and_comm _ _
+
+example : evalOk exEnv (.bin .dot (.leaf 0) (.leaf 1)) = true ∧ evalOk exEnv (.bin .dot (.leaf 1) (.leaf 0)) = true := by
+  decide +kernel
+
+/-- **`cross` anticommutes**: whenever `x.cross(y)` and `y.cross(x)` (`&`) are both accepted,
+every cell of the second is the negated cell of the first, and the validities agree. -/
+theorem cross_anticomm_values (env : Env) (n : List Nat) (hwf : ∀ f ∈ env.fields, CFwf f ∧ f.mesh.n = n)
+    (x y : Expr) (hx : LiftOk n x) (hy : LiftOk n y) (g1 g2 : CF)
+    (h1 : evalF env (.bin .cross x y) = .ok (.fld g1)) (h2 : evalF env (.bin .cross y x) = .ok (.fld g2)) :
+    ∀ i, inRange n i = true →
+      cellOf g2.data i g2.nvdim = (cellOf g1.data i g1.nvdim).map GQ.neg ∧ g1.valid.get i = g2.valid.get i := by
+  have hok1 : LiftOk n (.bin .cross x y) := ⟨hx, hy, by simp⟩
+  have hok2 : LiftOk n (.bin .cross y x) := ⟨hy, hx, by simp⟩
+  obtain ⟨_, _, hc1⟩ := eval_cellwise env n hwf _ hok1 g1 h1
+  obtain ⟨_, _, hc2⟩ := eval_cellwise env n hwf _ hok2 g2 h2
+  have hv1 := eval_valid env n hwf _ hok1 g1 h1
+  have hv2 := eval_valid env n hwf _ hok2 g2 h2
+  intro i hi
+  refine ⟨?_, ?_⟩
+  · rw [hc1 i hi, hc2 i hi]
+    simp only [evalCell, binCell]
+    exact (crossCell_neg _ _).symm
+  · rw [hv1 i hi, hv2 i hi]
+    simp only [validCell]
+    exact Bool.and_comm _ _
+
+def exEnv3 : Env := { fields := [exV3, { exV3 with vdims := some ["p", "q", "r"] }], sq := id, acos := id,
+                      arg := fun _ => 0 }
+example : evalOk exEnv3 (.bin .cross (.leaf 0) (.leaf 1)) = true ∧
+    evalOk exEnv3 (.bin .cross (.leaf 1) (.leaf 0)) = true := by
+  decide +kernel
+
+/-! ## refusals, continued -/
+
+/-- **binary ufuncs refuse incompatible component counts** (`k ≠ l`, both above 1):
+`np.add(f, g)`, `np.maximum(f, g)`, … are an error, whatever the meshes and data -/
+theorem mismatch_rejected_nvdim_ufunc (fn : GQ → GQ → GQ) (pw : Bool) (f o : CF) (hf : CFwf f) (ho : CFwf o)
+    (hne : f.nvdim ≠ o.nvdim) (h1 : f.nvdim ≠ 1) (h2 : o.nvdim ≠ 1) :
+    ∃ e, ufunc2 fn pw (.fld f) (.fld o) = .error e :=
+  ufunc2_nvdim_rejected fn pw f o hf ho hne h1 h2
+
+example : CFwf exA ∧ CFwf exV3 ∧ exA.nvdim ≠ exV3.nvdim := ⟨⟨rfl, rfl, by decide⟩, ⟨rfl, rfl, by decide⟩, by decide⟩
+
+/-- **a constant vector of the wrong length is refused** by `+ - * / **` in either operand
+order, for plain Python sequences (`TypeError` of `_apply_operator`, also through the
+reflected methods) and NumPy vectors (broadcast error inside `__array_ufunc__`) alike. -/
+theorem vector_length_rejected (env : Env) (b : BinOp) (hb : isArith b = true ∨ b = .pow) (f : CF) (hw : CFwf f)
+    (a : NDA GQ) (k : Kind) (np : Bool) (m : Nat) (ha : a.shape = [m]) (hm : m ≠ f.nvdim)
+    (h1 : f.nvdim ≠ 1) (hm1 : m ≠ 1) :
+    (∃ e, applyBin env b (.fld f) (.raw (.arr a k np)) = .error e) ∧
+    (∃ e, applyBin env b (.raw (.arr a k np)) (.fld f) = .error e) := by
+  have hfw := applyOperator_vector_rejected (binFn b) (isPow b) f hw a k np m ha hm h1
+  refine ⟨⟨.type, ?_⟩, ?_⟩
+  · rcases hb with hb | rfl
+    · cases b <;> simp [isArith] at hb <;> simp only [applyBin, forwardOp, hfw]
+    · simp only [applyBin, forwardOp, hfw]
+  · cases np with
+    | true =>
+      obtain ⟨e, he⟩ := ufunc2_vector_rejected (binFn b) (isPow b) f hw a k m ha hm h1 hm1
+      refine ⟨e, ?_⟩
+      rcases hb with hb | rfl
+      · cases b <;> simp [isArith] at hb <;> simp only [applyBin, isNp, if_true, he]
+      · simp only [applyBin, isNp, if_true, he]
+    | false =>
+      rcases hb with hb | rfl
+      · cases b <;> simp [isArith] at hb
+        case add =>
+          exact ⟨.type, by simp only [applyBin, isNp, Bool.false_eq_true, if_false, reflectedOp,
+            applyOperator_vector_rejected GQ.add false f hw a k false m ha hm h1]⟩
+        case mul =>
+          exact ⟨.type, by simp only [applyBin, isNp, Bool.false_eq_true, if_false, reflectedOp,
+            applyOperator_vector_rejected GQ.mul false f hw a k false m ha hm h1]⟩
+        case div =>
+          exact ⟨.type, by simp only [applyBin, isNp, Bool.false_eq_true, if_false, reflectedOp,
+            applyOperator_vector_rejected (fun x y => GQ.div y x) false f hw a k false m ha hm h1]⟩
+        case sub =>
+          cases h0 : mapField GQ.neg id false f with
+          | error e => exact ⟨e, by simp only [applyBin, isNp, Bool.false_eq_true, if_false, reflectedOp, h0]⟩
+          | ok g0 =>
+            have hcf : Cells f.mesh.n f (fun i => cellOf f.data i f.nvdim) (fun i => f.valid.get i) :=
+              ⟨hw, rfl, fun _ _ => ⟨rfl, rfl⟩⟩
+            obtain ⟨hc0, _, hn0⟩ := mapField_cells GQ.neg id false f.mesh.n f g0 _ _ hcf h0
+            refine ⟨.type, ?_⟩
+            simp only [applyBin, isNp, Bool.false_eq_true, if_false, reflectedOp, h0,
+              applyOperator_vector_rejected GQ.add false g0 hc0.1 a k false m ha (by rw [hn0]; exact hm)
+                (by rw [hn0]; exact h1)]
+      · exact ⟨.type, by simp only [applyBin, isNp, Bool.false_eq_true, if_false, reflectedOp]⟩
+
+example : (NDA.ofList [3] [⟨1, 0⟩, ⟨1, 0⟩, ⟨1, 0⟩] GQ.zero).shape = [3] ∧ 3 ≠ exA.nvdim ∧ exA.nvdim ≠ 1 := by
+  decide
+
+/-- **unsupported operand combinations are refused**: an operation without any field operand,
+`number ** field` / `list ** field` (there is no `__rpow__`), `dot` / `cross` with a number,
+`angle` with the field on the right. -/
+theorem unsupported_rejected (env : Env) (b : BinOp) (o1 o2 : Opd) (f : CF) (z : GQ) (k : Kind) (np : Bool) :
+    (∃ e, applyBin env b (.raw o1) (.raw o2) = .error e) ∧
+    (isNp o1 = false → ∃ e, applyBin env .pow (.raw o1) (.fld f) = .error e) ∧
+    dotOp f (.raw (.num z k np)) = .error .type ∧ crossOp f (.raw (.num z k np)) = .error .type ∧
+    (∃ e, applyBin env .angle (.raw o1) (.fld f) = .error e) := by
+  refine ⟨?_, ?_, rfl, rfl, ?_⟩
+  · cases b <;> exact ⟨.type, rfl⟩
+  · intro h
+    exact ⟨.type, by simp only [applyBin, h, Bool.false_eq_true, if_false, reflectedOp]⟩
+  · by_cases h : isNp o1 = true
+    · exact ⟨.notImpl, by simp only [applyBin, h, if_true]⟩
+    · have h' : isNp o1 = false := by simpa using h
+      exact ⟨.type, by simp only [applyBin, h', Bool.false_eq_true, if_false, reflectedOp]⟩
+
+/-- **rejection inside a program**: if the two operand subtrees of a binary node evaluate to
+fields whose meshes are not `allclose`, the node is an error for every operation other than
+`<<` (operators, `dot`, `cross`, `angle` **and** the binary ufunc calls); for `<<` when the
+meshes are not equal. -/
+theorem eval_mismatch_rejected (env : Env) (b : BinOp) (l r : Expr) (f o : CF)
+    (hl : evalF env l = .ok (.fld f)) (hr : evalF env r = .ok (.fld o)) :
+    (b ≠ .shl → meshAllclose f.mesh o.mesh ≠ .ok true → ∃ e, evalF env (.bin b l r) = .error e) ∧
+    (b = .shl → meshEq f.mesh o.mesh = false → ∃ e, evalF env (.bin b l r) = .error e) := by
+  rw [evalF_bin env b l r _ _ hl hr]
+  refine ⟨fun hb hm => ?_, fun hb hm => ?_⟩
+  · by_cases hu : isUfuncBin b = true
+    · obtain ⟨e, he⟩ := mismatch_rejected_mesh_ufunc (binFn b) (isPow b) f o hm
+      exact ⟨e, by cases b <;> simp [isUfuncBin] at hu <;> simp only [applyBin, he]⟩
+    · exact mismatch_rejected_mesh env b (by simpa using hu) hb f o hm
+  · subst hb
+    obtain ⟨e, he⟩ := shl_rejects_other_mesh f o hm
+    exact ⟨e, by simp only [applyBin, forwardOp, shlOp, he]⟩
+
+/-- **errors propagate** (evaluation is strict, as Python's): a unary node over a failing
+subtree fails, a binary node with a failing left or right subtree fails — so a program
+containing a rejected combination anywhere is rejected as a whole. -/
+theorem eval_strict (env : Env) (u : UnOp) (b : BinOp) (e l r : Expr) (er : Err) :
+    (evalF env e = .error er → evalF env (.un u e) = .error er) ∧
+    (evalF env l = .error er → evalF env (.bin b l r) = .error er) ∧
+    (evalF env r = .error er → ∃ er', evalF env (.bin b l r) = .error er') := by
+  refine ⟨fun h => by simp only [evalF, h], fun h => by simp only [evalF, h], fun h => ?_⟩
+  cases hl : evalF env l with
+  | error e' => exact ⟨e', by simp only [evalF, hl]⟩
+  | ok v => exact ⟨er, by simp only [evalF, hl, h]⟩
+
+/-! ## the per-cell specification spelled out -/
+
+/-- what a non-field operand contributes to cell `i` under NumPy broadcasting: a number its
+one value; **a constant vector of length `k` its `k` entries, the same in every cell**; a
+per-cell array of shape `n ++ [k]` its own row of cell `i`. -/
+theorem rawCell_shapes (z : GQ) (a : NDA GQ) (kd : Kind) (np : Bool) (n : List Nat) (k : Nat) (i : List Nat) :
+    rawCell (.num z kd np) i = [z] ∧
+    (a.shape = [k] → rawCell (.arr a kd np) i = tab k (fun c => a.get [c])) ∧
+    (a.shape = n ++ [k] → inRange n i = true → rawCell (.arr a kd np) i = cellOf a i k) :=
+  ⟨rfl, fun h => opdCell_vector a k h i, fun h hi => opdCell_percell a n k h i hi⟩
+
+/-- NumPy broadcasting of two component lists: equal lengths combine element by element, a
+one-element list on either side is combined with every component of the other. -/
+theorem bz_shapes (fn : GQ → GQ → GQ) (xs ys : List GQ) (x y : GQ) :
+    (xs.length = ys.length → bz fn xs ys = List.zipWith fn xs ys) ∧
+    bz fn xs [y] = xs.map (fun a => fn a y) ∧ bz fn [x] ys = ys.map (fn x) :=
+  ⟨bz_zipWith fn xs ys, bz_scalar_right fn xs y, scalar_field_broadcasts fn x ys⟩
+
+/-! ## ufuncs with two outputs: the tuple branch of `__array_ufunc__` (`np.divmod(f, g)`) -/
+
+/-- **both results of a two-output ufunc call are cell-wise**: if `np.divmod(f, g)` (any pair of
+elementwise functions `fn1`, `fn2`) is accepted for two well-formed fields with cell counts
+`n`, the first result lives on `f`'s mesh, the second on `g`'s, every cell of result `j` is
+`fn_j` applied with NumPy broadcasting to the component lists of that cell, and both are
+valid exactly where both operands are. -/
+theorem pair_cellwise (fn1 fn2 : GQ → GQ → GQ) (c : Bool) (n : List Nat) (f o g1 g2 : CF)
+    (hf : CFwf f) (ho : CFwf o) (hnf : f.mesh.n = n) (hno : o.mesh.n = n)
+    (h : ufunc2pair fn1 fn2 c (.fld f) (.fld o) = .ok (g1, g2)) :
+    CFwf g1 ∧ CFwf g2 ∧ g1.mesh = f.mesh ∧ g2.mesh = o.mesh ∧
+    ∀ i, inRange n i = true →
+      cellOf g1.data i g1.nvdim = bz fn1 (cellOf f.data i f.nvdim) (cellOf o.data i o.nvdim) ∧
+      cellOf g2.data i g2.nvdim = bz fn2 (cellOf f.data i f.nvdim) (cellOf o.data i o.nvdim) ∧
+      g1.valid.get i = (f.valid.get i && o.valid.get i) ∧ g2.valid.get i = (f.valid.get i && o.valid.get i) := by
+  have hcf : Cells n f (fun i => cellOf f.data i f.nvdim) (fun i => f.valid.get i) := ⟨hf, hnf, fun _ _ => ⟨rfl, rfl⟩⟩
+  have hco : Cells n o (fun i => cellOf o.data i o.nvdim) (fun i => o.valid.get i) := ⟨ho, hno, fun _ _ => ⟨rfl, rfl⟩⟩
+  obtain ⟨c1, c2, m1, m2⟩ := ufunc2pair_cells fn1 fn2 c n f o g1 g2 _ _ _ _ hcf hco h
+  exact ⟨c1.1, c2.1, m1, m2, fun i hi => ⟨(c1.2.2 i hi).1, (c2.2.2 i hi).1, (c1.2.2 i hi).2, (c2.2.2 i hi).2⟩⟩
+
+def pairOk (l r : Val) : Bool :=
+  match ufunc2pair GQ.floorDiv GQ.pymod false l r with
+  | .ok _ => true
+  | _ => false
+/-- real-valued fields for the `divmod` examples -/
+def exRData : NDA GQ := NDA.ofList [2, 2] [⟨5, 0⟩, ⟨-7, 0⟩, ⟨3, 0⟩, ⟨4, 0⟩] GQ.zero
+def exDData : NDA GQ := NDA.ofList [2, 2] [⟨2, 0⟩, ⟨2, 0⟩, ⟨-2, 0⟩, ⟨1/2, 0⟩] GQ.zero
+def exR : CF := { exS with nvdim := 2, data := exRData, vdims := some ["a", "b"] }
+def exD : CF := { exR with data := exDData, vdims := some ["p", "q"] }
+example : pairOk (.fld exR) (.fld exD) = true ∧ pairOk (.fld exR) (.fld exS) = true := by decide +kernel
+
+/-- **two-output calls on two fields are accepted** when the result has `self`'s component
+count and the ufunc has a loop for the dtypes (`divmod`: no complex data); both results
+carry `self`'s labels and mapping and no unit. -/
+theorem pair_accepts_meta (fn1 fn2 : GQ → GQ → GQ) (c : Bool) (M : Mesh) (hM : MeshOk M) (f o : CF)
+    (hf : Good M f) (ho : Good M o) (hd : bdim f.nvdim o.nvdim = some f.nvdim)
+    (hk : c = true ∨ (f.kind ≠ .complex ∧ o.kind ≠ .complex)) :
+    ∃ g1 g2, ufunc2pair fn1 fn2 c (.fld f) (.fld o) = .ok (g1, g2) ∧ Good M g1 ∧ Good M g2 ∧
+      g1.nvdim = f.nvdim ∧ g2.nvdim = f.nvdim ∧ g1.vdims = f.vdims ∧ g2.vdims = f.vdims ∧
+      g1.vmap = f.vmap ∧ g2.vmap = f.vmap ∧ g1.unit = none ∧ g2.unit = none :=
+  ufunc2pair_accepts fn1 fn2 c M hM f o hf ho hd hk
+
+example : Good exMesh exR ∧ Good exMesh exD ∧ bdim exR.nvdim exD.nvdim = some exR.nvdim ∧
+    exR.kind ≠ .complex ∧ exD.kind ≠ .complex :=
+  ⟨⟨⟨rfl, rfl, by decide⟩, ⟨by decide +kernel, by decide +kernel⟩, rfl⟩,
+   ⟨⟨rfl, rfl, by decide⟩, ⟨by decide +kernel, by decide +kernel⟩, rfl⟩, by decide, by decide, by decide⟩
+
+/-- **refusals of two-output calls**: a non-field in either position (`np.divmod(f, 2)`,
+`np.divmod(ndarray, f)`: two results, one mesh), fields on different meshes, incompatible
+component counts, complex data for a ufunc without complex loop, and every unary two-output
+ufunc (`np.modf(f)`, `np.frexp(f)`) are errors. -/
+theorem pair_rejected (fn1 fn2 : GQ → GQ → GQ) (c : Bool) (f o : CF) (od : Opd) :
+    (∃ e, ufunc2pair fn1 fn2 c (.fld f) (.raw od) = .error e) ∧
+    (∃ e, ufunc2pair fn1 fn2 c (.raw od) (.fld f) = .error e) ∧
+    (meshAllclose f.mesh o.mesh ≠ .ok true → ∃ e, ufunc2pair fn1 fn2 c (.fld f) (.fld o) = .error e) ∧
+    (CFwf f → CFwf o → f.nvdim ≠ o.nvdim → f.nvdim ≠ 1 → o.nvdim ≠ 1 →
+      ∃ e, ufunc2pair fn1 fn2 c (.fld f) (.fld o) = .error e) ∧
+    (c = false → (f.kind = .complex ∨ o.kind = .complex) → ∃ e, ufunc2pair fn1 fn2 c (.fld f) (.fld o) = .error e) ∧
+    (∃ e, ufunc1pair f = .error e) :=
+  ⟨ufunc2pair_raw_rejected fn1 fn2 c _ _ (Or.inr ⟨od, rfl⟩),
+   ufunc2pair_raw_rejected fn1 fn2 c _ _ (Or.inl ⟨od, rfl⟩),
+   fun h => ufunc2pair_ff_rejected fn1 fn2 c f o (Or.inl h),
+   fun h1 h2 h3 h4 h5 => ufunc2pair_ff_rejected fn1 fn2 c f o (Or.inr (Or.inl ⟨h1, h2, h3, h4, h5⟩)),
+   fun h1 h2 => ufunc2pair_ff_rejected fn1 fn2 c f o (Or.inr (Or.inr ⟨h1, h2⟩)),
+   ufunc1pair_rejected f⟩
+
+/-- **`divmod` law** for the two elementwise functions of `np.divmod` on real values:
+`a = b * (a // b) + (a % b)`, and the remainder lies between 0 and the divisor (sign of the
+divisor), for every non-zero divisor. -/
+theorem divmod_law (a b : GQ) :
+    a.re = b.re * (GQ.floorDiv a b).re + (GQ.pymod a b).re ∧
+    (0 < b.re → 0 ≤ (GQ.pymod a b).re ∧ (GQ.pymod a b).re < b.re) ∧
+    (b.re < 0 → b.re < (GQ.pymod a b).re ∧ (GQ.pymod a b).re ≤ 0) :=
+  ⟨divmod_identity a b, pymod_range_pos a b, pymod_range_neg a b⟩
 
 end DFV.C03
